@@ -133,3 +133,156 @@ def loop_ancestor_contract():
                                extraction_drops=["astroid node classes are three symbolic kinds (function definition / loop / other)"]))
     c.feas_timeout_ms = 500
     return c
+
+
+# ------------------------------------------------------------------------------------------- IC10Register.lifetime
+# The branch for temporaries (`_is_intermediate`): the lifetime is the line range of the statement the temporary is computed
+# in.  The parent chain of the writing node is a ghost sequence of any length; the `while` loop climbing it is cut by an
+# invariant and proved to terminate (variant: distance to the chain's end, where a statement is reached at the latest).
+IS_STMT = z3.Function("node_is_statement", INT, z3.BoolSort())
+LINENO = z3.Function("node_lineno", INT, INT)
+END_LINENO = z3.Function("node_end_lineno", INT, INT)
+
+
+def node_is_statement(i):
+    raise NotImplementedError("ghost function")
+
+
+def _sym_is_stmt(eng, st, args, kw, origin):
+    from pyvc import pysem as S
+
+    return [(st, VBool(IS_STMT(S.to_int_term(args[0]))))]
+
+
+node_is_statement.__pyvc_symbolic__ = _sym_is_stmt
+
+
+def chain_index(node):
+    raise NotImplementedError("ghost function")
+
+
+def _sym_chain_index(eng, st, args, kw, origin):
+    return [(st, VInt(args[0].t))]
+
+
+chain_index.__pyvc_symbolic__ = _sym_chain_index
+
+
+def inv_climbing(k, node, n):
+    return 0 <= chain_index(node) and chain_index(node) <= n and all(not node_is_statement(j) for j in range(chain_index(node)))
+
+
+def climb_variant(k, node, n):
+    return n - chain_index(node)
+
+
+def lifetime_contract():
+    from pyvc.builtins_model import class_from_source
+
+    tree = X.module_ast("types.py")
+    ci = class_from_source(tree, "IC10Register")
+    fprop = ci.properties["lifetime"]
+    fn = "IC10Register.lifetime"
+
+    def mk_sym(st, pname):
+        n = fresh("chain_length", INT)
+        st.assume(n >= 0)
+        st.assume(IS_STMT(n))          # the chain of parents reaches a statement (module-level code consists of statements)
+        st.ghost["n"] = n
+        first = VOpq("chain", z3.IntVal(0))
+        return st.new_obj("IC10Register", {"name": VC("t"), "scope": VC(""), "code_expr": VC("__register.1_"), "_lifetime": VC(None), "_color": VC(-1),
+                                           "_is_intermediate": VC(True), "nodes_reading": st.new_list([]), "nodes_writing": st.new_list([first])})
+
+    def chain_attr(eng, st, obj, name, origin):
+        if name == "is_statement":
+            return [(st, VBool(IS_STMT(obj.t)))]
+        if name == "parent":
+            return [(st, VOpq("chain", obj.t + 1))]
+        if name == "lineno":
+            return [(st, VInt(LINENO(obj.t)))]
+        if name == "end_lineno":
+            return [(st, VInt(END_LINENO(obj.t)))]
+        raise Unsupported(f"node.{name}")
+
+    def setup(eng, st, args):
+        eng.uf_patterns = True
+
+    class _Idx:
+        pass
+
+    def post(self, result):
+        lo, hi, m_ok = result
+        return m_ok
+
+    def view(eng, st, v):
+        from pyvc.loops import SymRange
+
+        if isinstance(v, VC) and isinstance(v.py, range):
+            lo, hi = z3.IntVal(v.py.start), z3.IntVal(v.py.stop)
+        elif isinstance(v, SymRange):
+            lo, hi = v.lo, v.hi
+        else:
+            raise Unsupported(f"lifetime returned {v!r}")
+        # m = the first statement on the chain: the result must be its line range
+        m = z3.Int("m_first_statement")
+        n = st.ghost["n"]
+        j = z3.Int("j_before")
+        first_stmt = z3.And(m >= 0, m <= n, IS_STMT(m), z3.ForAll([j], z3.Implies(z3.And(j >= 0, j < m), z3.Not(IS_STMT(j))), patterns=[IS_STMT(j)]))
+        ok = z3.ForAll([m], z3.Implies(first_stmt, z3.And(lo == LINENO(m), hi == END_LINENO(m) + 1)), patterns=[IS_STMT(m)])
+        return VTuple([VInt(lo), VInt(hi), VBool(ok)])
+
+    # the loop variable is an opaque chain element: its index is the ghost value the invariant talks about
+    def lookup_index(eng, st):
+        node = eng.lookup(st, "node")
+        return node.t
+
+    def search(clause):
+        """native: every temporary of a few real compilations (loop headers with computed bounds, nested expressions)"""
+        from stationeers_pytrapic import generate_code as G
+        from stationeers_pytrapic.compiler import CompileOptions, compile_code
+
+        h = "from stationeers_pytrapic.symbols import *\n"
+        srcs = [h + "n = d0.Setting\nfor i in range(floor(n / 2) + 1):\n    db.Setting = i * 2 + n\n    db.On = (i + 1) * (n - 1)\n",
+                h + "x = d0.On\nwhile (x * 2 + 1) < (d1.Setting - 3):\n    x = x + (d0.Setting * 2)\n    db.Setting = x\n",
+                h + "def f(a):\n    for k in range(ceil(a) + 2):\n        db.On = (k + a) * (k - a)\n    return a + 1\ndb.Setting = f(d0.Setting)\ndb.Mode = f(d0.On)\n"]
+        found = []
+        real = G.assign_registers
+
+        def wrapper(data, code):
+            for scope, table in data.symbols.items():
+                for sym in table.values():
+                    if getattr(sym, "_is_intermediate", False) and sym.nodes_writing:
+                        node = sym.nodes_writing[0]
+                        while not node.is_statement:
+                            node = node.parent
+                        want = range(node.lineno, node.end_lineno + 1)
+                        got = sym.lifetime
+                        if (got.start, got.stop) != (want.start, want.stop):
+                            found.append((scope, sym.name, (got.start, got.stop), (want.start, want.stop), node.as_string()[:60]))
+            return real(data, code)
+
+        G.assign_registers = wrapper
+        try:
+            for s_ in srcs:
+                compile_code(s_, CompileOptions(append_version=False))
+                if found:
+                    sc, nm, got, want, stmt = found[0]
+                    return {"sources": s_, "options": {"append_version": False}}, f"temporary {nm} of scope {sc!r} has lifetime {got}, its statement '{stmt}' spans {want}"
+        finally:
+            G.assign_registers = real
+        return None
+
+    spec = LoopSpec([inv_climbing], ["node", "ghost:n"], name="climb", variant=climb_variant)
+    src = "def lifetime_of(sym):\n    return sym.lifetime\n"
+    import ast as _ast
+
+    c = Contract(name="types.IC10Register.lifetime{intermediate}", fun=lambda eng: X.vfun(_ast.parse(src).body[0], "harness:IC10Register.lifetime"),
+                 params=[("self", [KCustom("temporary written at a node with any chain of parents", mk_sym, lambda m, v: None)])],
+                 post={"lifetime_is_the_line_range_of_the_enclosing_statement": post}, raises={}, world={"__opqattr__:chain": chain_attr, "sys": VMod("sys", {"maxsize": VC(2**63 - 1)}),
+                                                                                                           "nodes": VMod("nodes", {"Module": VType("Module")})},
+                 classes={"IC10Register": ci}, loop_specs={f"{fn}@while[not node.is_statement]": spec}, setup=setup, result_view=view, search=search, timeout=60.0,
+                 describe=dict(X.describe(fprop, "types.py"), track="U: while loop over a ghost parent chain (invariant + variant); only the branch for temporaries",
+                               extraction_drops=["the branches for named variables (module-level: whole program; otherwise min / max over the widened nodes) are not under this contract"]))
+    c.feas_timeout_ms = 500
+    c.ghost_index_sync = True
+    return c
